@@ -425,11 +425,13 @@ pub fn gen_program(rng: &mut Rng, gc: &GenCfg) -> Program {
                 }
                 9 => Op::Compute(k, CFn::Remove, 0),
                 10 | 11 => {
-                    let pred = match rng.below(4) {
+                    let pred = match rng.below(8) {
                         0 => Pred::KeyMod(2, rng.below(2) as u32),
                         1 => Pred::ValEven,
                         2 => Pred::DropAll,
-                        _ => Pred::KeyMod(3, rng.below(3) as u32),
+                        3 => Pred::KeyMod(3, rng.below(3) as u32),
+                        // reject just one or two of the contended keys: the bin keeps its shape
+                        _ => Pred::DropKeys(*rng.pick(&hot), *rng.pick(&hot)),
                     };
                     if kind == 10 {
                         Op::Retain(pred)
